@@ -174,3 +174,95 @@ Example C03_example_hyps :
    end) = (true, false, (true, Some 3, true)).
 Proof. vm_compute. reflexivity. Qed.
 Print Assumptions C03_example_hyps.
+
+(* ====================================================================================================
+   First clause of the property: THE REPRESENTED STATE IS UNCHANGED (TTN/CanonValue.v).
+   `net_value zero one add mul s tbl rho` (TTN/InvSem.v) is the value of the whole network of store s over any
+   commutative semiring and atom table tbl, at the assignment rho of its open wires.  The kernel contract is
+   `def_holds ... s' tbl d` (the recorded factorisation d satisfies  SUM_k Q.R = A  over its new bond, at every
+   wire assignment), asked of every definition recorded since the start, in the world of the FINAL store.  All
+   three modes are covered (KEEP: the zero-padded factors satisfy the same contract).  `wfsb` is the executable
+   extended store invariant of C02; `rid` is the temporary identifier of the R factor.
+   ==================================================================================================== *)
+From PTN Require Import Wire.Sem TTN.InvSem TTN.CanonValue.
+
+(* one step split_qr_contract_r_to_neighbour, any node, any neighbour, any mode *)
+Theorem C03_qr_step_state_unchanged : forall (R : Type) (zero one : R) (add mul : R -> R -> R),
+  comm_semiring zero one add mul ->
+  forall (tbl : nat -> list nat -> R) (s : store) (n nb : id) (m : mode) (rid : id) (s' : store),
+  wfsb s = true -> amem rid (nodes s) = false -> qr_to_neighbour s n nb m rid = Some s' ->
+  def_holds zero one add mul s' tbl (last (defs s') dflt_def) ->
+  wfsb s' = true /\ amem rid (nodes s') = false /\ defs s' = defs s ++ [last (defs s') dflt_def] /\
+  Permutation (open_wires s') (open_wires s) /\
+  forall rho, net_value zero one add mul s' tbl rho = net_value zero one add mul s tbl rho.
+Proof. exact qr_step_state_unchanged. Qed.
+Print Assumptions C03_qr_step_state_unchanged.
+
+Theorem C03_canonical_form_state_unchanged : forall (R : Type) (zero one : R) (add mul : R -> R -> R),
+  comm_semiring zero one add mul ->
+  forall (tbl : nat -> list nat -> R) (s : store) (oc : option id) (c : id) (m : mode) (rid : id) (cs' : cstore),
+  wfsb s = true -> amem rid (nodes s) = false -> canonical_form (s, oc) c m rid = Some cs' ->
+  (forall d, In d (skipn (length (defs s)) (defs (fst cs'))) -> def_holds zero one add mul (fst cs') tbl d) ->
+  wfsb (fst cs') = true /\ Permutation (open_wires (fst cs')) (open_wires s) /\
+  forall rho, net_value zero one add mul (fst cs') tbl rho = net_value zero one add mul s tbl rho.
+Proof. exact canonical_form_state_unchanged. Qed.
+Print Assumptions C03_canonical_form_state_unchanged.
+
+Theorem C03_move_center_state_unchanged : forall (R : Type) (zero one : R) (add mul : R -> R -> R),
+  comm_semiring zero one add mul ->
+  forall (tbl : nat -> list nat -> R) (cs : cstore) (c : id) (m : mode) (rid : id) (cs' : cstore),
+  wfsb (fst cs) = true -> amem rid (nodes (fst cs)) = false -> move_center cs c m rid = Some cs' ->
+  (forall d, In d (skipn (length (defs (fst cs))) (defs (fst cs'))) -> def_holds zero one add mul (fst cs') tbl d) ->
+  wfsb (fst cs') = true /\ Permutation (open_wires (fst cs')) (open_wires (fst cs)) /\
+  forall rho, net_value zero one add mul (fst cs') tbl rho = net_value zero one add mul (fst cs) tbl rho.
+Proof. exact move_center_state_unchanged. Qed.
+Print Assumptions C03_move_center_state_unchanged.
+
+Theorem C03_ensure_center_state_unchanged : forall (R : Type) (zero one : R) (add mul : R -> R -> R),
+  comm_semiring zero one add mul ->
+  forall (tbl : nat -> list nat -> R) (cs : cstore) (c : id) (m : mode) (rid : id) (cs' : cstore),
+  wfsb (fst cs) = true -> amem rid (nodes (fst cs)) = false -> ensure_center cs c m rid = Some cs' ->
+  (forall d, In d (skipn (length (defs (fst cs))) (defs (fst cs'))) -> def_holds zero one add mul (fst cs') tbl d) ->
+  wfsb (fst cs') = true /\ Permutation (open_wires (fst cs')) (open_wires (fst cs)) /\
+  forall rho, net_value zero one add mul (fst cs') tbl rho = net_value zero one add mul (fst cs) tbl rho.
+Proof. exact ensure_center_state_unchanged. Qed.
+Print Assumptions C03_ensure_center_state_unchanged.
+
+(* every sequence of canonical_form / move / ensure_orth_center / ensure_root_orth_center operations (`is_canon_op`; a
+   rejected operation leaves the state unchanged, as in crun_obs); tensor replacements (Scramble) change the state by
+   definition, structural edits (Base) are C02_run_net_value *)
+Theorem C03_sequence_state_unchanged : forall (R : Type) (zero one : R) (add mul : R -> R -> R),
+  comm_semiring zero one add mul ->
+  forall (tbl : nat -> list nat -> R) (rid : id) (cs : cstore) (ops : list cop),
+  wfsb (fst cs) = true -> amem rid (nodes (fst cs)) = false ->
+  forallb (fun o => match o with Canon _ _ | Move _ _ | Ensure _ _ | EnsureRoot _ => true | _ => false end) ops = true ->
+  let cs' := fold_left (fun cs o => match cstep rid cs o with Some cs' => cs' | None => cs end) ops cs in
+  (forall d, In d (skipn (length (defs (fst cs))) (defs (fst cs'))) -> def_holds zero one add mul (fst cs') tbl d) ->
+  wfsb (fst cs') = true /\ amem rid (nodes (fst cs')) = false /\
+  Permutation (open_wires (fst cs')) (open_wires (fst cs)) /\
+  forall rho, net_value zero one add mul (fst cs') tbl rho = net_value zero one add mul (fst cs) tbl rho.
+Proof. exact sequence_state_unchanged. Qed.
+Print Assumptions C03_sequence_state_unchanged.
+
+(* non-vacuity: on a three-node chain, canonical form at the root (REDUCED), a move to the far leaf (KEEP) and
+   ensure_orth_center at the middle node (FULL) record five QR definitions; over Z, with concrete tensors and factors of
+   which one is a (rectangular) identity, every contract holds, so the hypotheses of C03_sequence_state_unchanged are met;
+   the final network has the value of the initial one (e.g. the entry -27 at open indices 2, 1, 1) *)
+From Coq Require Import ZArith.
+Example C03_state_unchanged_example :
+  (wfsb (fst cvx_cs0) = true /\ amem 99 (nodes (fst cvx_cs0)) = false /\ forallb is_canon_op cvx_ops = true /\
+   snd cvx_csf = Some 1 /\
+   map kmode (skipn (length (defs (fst cvx_cs0))) (defs (fst cvx_csf)))
+     = [Some Reduced; Some Reduced; Some Keep; Some Keep; Some Full] /\
+   open_wires (fst cvx_csf) = open_wires (fst cvx_cs0)) /\
+  (forall d, In d (skipn (length (defs (fst cvx_cs0))) (defs (fst (crun_state 99 cvx_cs0 cvx_ops)))) ->
+             def_holds 0%Z 1%Z Z.add Z.mul (fst (crun_state 99 cvx_cs0 cvx_ops)) cvx_tbl d) /\
+  (forall rho, net_value 0%Z 1%Z Z.add Z.mul (fst (crun_state 99 cvx_cs0 cvx_ops)) cvx_tbl rho
+               = net_value 0%Z 1%Z Z.add Z.mul (fst cvx_cs0) cvx_tbl rho) /\
+  (let rho := fun w : wire => match w with 1 => 2 | 4 => 1 | 6 => 1 | _ => 0 end in
+   (net_value 0%Z 1%Z Z.add Z.mul (fst cvx_cs0) cvx_tbl rho, net_value 0%Z 1%Z Z.add Z.mul (fst cvx_csf) cvx_tbl rho)
+   = ((-27)%Z, (-27)%Z)).
+Proof.
+  split; [exact cvx_structure|]. split; [exact cvx_contracts|]. split; [exact (proj2 cvx_conclusion)|exact cvx_entry].
+Qed.
+Print Assumptions C03_state_unchanged_example.
